@@ -115,6 +115,19 @@ def cross(ck, q, *names):
             raise ToolError("unknown cross stage " + nm)
 
 
+def python_view(ck, q, kinds=("book",)):
+    """The property as seen through the Python layer: every observable of the book-level properties is also reported by the
+    Python classes (tuples from get_orders / get_trades, the scalar getters), so a change in the bindings breaks what a Python
+    user sees of the property.  Random call sequences through the compiled extension, validated by TLC against the same trace
+    specifications (BookTrace.tla with the Python clauses; PyEnvTrace.tla for the environments)."""
+    if "book" in kinds:
+        py_traces(ck, "py_view_book", "book", files=2 if q else 16, runs=3 if q else 6, ops=150)
+    if "env" in kinds:
+        py_traces(ck, "py_view_env", "env", files=2 if q else 16, runs=2 if q else 4, ops=100, engine=True)
+    if "numpy" in kinds:
+        py_traces(ck, "py_view_numpy", "numpy", files=2 if q else 16, runs=2 if q else 4, ops=100, engine=True)
+
+
 def inductive(ck, q, n_quick=3, n_thorough=4, bg=True):
     """Unbounded-in-the-numbers half of C01 / C02 / C04 / C12: BookInd.tla's invariant (queues sorted by price then queuing order,
     queues = the active limit orders, never crossed while trading was never off, volumes / statuses, on grid) is inductive for
@@ -161,6 +174,7 @@ def c01(tier, seed):
     # the same without the clock discipline: half of the queue insertions tie
     ck.traces_stage("rand_ties", "record_book", {"discipline": False, "p_tie": 0.5, "nprices": 6, "audit_every": 25, "w": {"modify": 2}},
                     files=4 if q else 32, runs=2 if q else 4, ops=300)
+    python_view(ck, q)
     return ck.finish("model_checking", LEVEL_TEXT,
                      "histories: every path of the bounded generator configs (one TLC state = one history) plus seeded random "
                      "runs; non-trivial = generated histories containing at least one trade + recorded events with trades",
@@ -203,6 +217,7 @@ def c02(tier, seed):
     prof = {"discipline": True, "audit_every": 1, "w": {"toggle": 0.6, "reload": 0.4, "modify": 4}}
     ck.traces_stage("rand_views", "record_book", prof, files=8 if q else 64, runs=3 if q else 6, ops=120)
     ck.assumptions.append("ViewsO (recomputation from the order table alone) is evaluated by TLC on the logged order table at every event (audit_every = 1)")
+    python_view(ck, q)
     return ck.finish("model_checking", LEVEL_TEXT, RULE + "two-sided book states",
                      ("gen_views.two_sided", "gen_views_reload.two_sided", "rand_views.two_sided_states"))
 
@@ -220,6 +235,7 @@ def c03(tier, seed):
     cross(ck, q, "reload_resettv", "ties", "off_modify")
     prof = {"discipline": True, "audit_every": 10, "w": {"toggle": 0.5, "resettv": 1.5, "modify": 5, "reload": 0.5}}
     ck.traces_stage("rand_ledger", "record_book", prof, files=8 if q else 64, runs=2 if q else 4, ops=300)
+    python_view(ck, q)
     return ck.finish("model_checking", LEVEL_TEXT, RULE + "histories / events with at least one trade",
                      ("gen_ledger.has_trade", "rand_ledger.events_with_trades"))
 
@@ -246,6 +262,7 @@ def c04(tier, seed):
     cross(ck, q, "ties", "ties_modify", "split_modify")
     prof = {"discipline": True, "p_redundant": 0.3, "audit_every": 25, "w": {"toggle": 0.4, "settime": 1.5, "place": 4, "create": 3}}
     ck.traces_stage("rand_redundant", "record_book", prof, files=8 if q else 64, runs=2 if q else 4, ops=300)
+    python_view(ck, q)
     return ck.finish("model_checking", LEVEL_TEXT, RULE + "recorded redundant requests + generated histories with a cancelled order",
                      ("gen_requests.cancelled_order", "gen_requests_off.rejected_order", "rand_redundant.redundant_requests"))
 
@@ -286,6 +303,7 @@ def c05(tier, seed):
                ops=120, hook=False)
     prof = {"discipline": False, "p_tie": 0.5, "nprices": 6, "audit_every": 25, "w": {"modify": 4, "reload": 0.5, "toggle": 0.3}}
     ck.traces_stage("rand_ties", "record_book", prof, files=8 if q else 64, runs=2 if q else 4, ops=300)
+    python_view(ck, q)
     return ck.finish("model_checking", LEVEL_TEXT, RULE + "queueing calls made without advancing the clock",
                      ("gen_ties_cap_cancel.dt0", "gen_ties_modify.dt0", "gen_ties_api_reload.dt0", "rand_ties.dt0_queueing_calls"))
 
@@ -318,6 +336,7 @@ def c06(tier, seed):
     ck.traces_stage("rand_modify", "record_book", prof, files=8 if q else 64, runs=2 if q else 4, ops=300)
     prof = {"discipline": False, "p_tie": 0.5, "audit_every": 25, "nprices": 5, "w": {"modify": 8, "toggle": 0.5}}
     ck.traces_stage("rand_modify_ties", "record_book", prof, files=4 if q else 32, runs=2 if q else 4, ops=300)
+    python_view(ck, q)
     return ck.finish("model_checking", LEVEL_TEXT, RULE + "generated histories containing a modify + recorded modify calls",
                      ("gen_modify.op_modify", "gen_modify_cancel_mkt.op_modify", "rand_modify.op_modify"))
 
@@ -343,6 +362,7 @@ def c07(tier, seed):
     mkt_traces(ck, "rand_market_reload", files=4 if q else 32, runs=3 if q else 6, ops=150, profile={"p_reload": 0.1})
     prof = {"discipline": True, "audit_every": 25, "w": {"reload": 3, "toggle": 0.4, "modify": 3}}
     ck.traces_stage("rand_reload", "record_book", prof, files=8 if q else 64, runs=2 if q else 4, ops=300)
+    python_view(ck, q)
     return ck.finish("model_checking", LEVEL_TEXT, RULE + "generated histories containing a reload + recorded reload calls",
                      ("gen_reload.op_reload", "gen_reload_off_new.op_reload", "rand_reload.op_reload"))
 
@@ -385,6 +405,11 @@ def c12(tier, seed):
     # arbitrary new prices in modify requests (known finding F3 lives here)
     prof = dict(prof, p_offgrid_modify=0.2)
     ck.traces_stage("rand_grid_modify", "record_book", prof, files=4 if q else 16, runs=1, ops=120)
+    python_view(ck, q)
+    # the grid through the numpy environment (tick 2): on-grid rows are queued whatever the unused fields of the other rows
+    # of the batch hold, off-grid new-order rows raise ValueError
+    py_env_gen(ck, "py_numpy_grid", mode="numpy", seeds=2 if q else 4, Ticks=(2,), StepSize=4, Ops=["new", "cancel", "step"], Kinds=["L"], Prices=[10, 11, 12], Vols=[1],
+               MaxSubmits=3 if q else 4, MaxBatch=3, MaxSteps=2, MaxOrders=3, need=("value_error", "has_trade", "has_cancel"), timeout=400 if q else 1800)
     return ck.finish("model_checking", LEVEL_TEXT, RULE + "generated histories with a rejected creation + recorded rejected creations",
                      ("gen_create_grid.create_rejected", "rand_grid.rejected_creations"))
 
@@ -415,6 +440,7 @@ def c13(tier, seed):
                runs=3 if q else 6, ops=200)
     prof = {"discipline": True, "audit_every": 25, "nprices": 6, "trading0": [True, False], "w": {"toggle": 2.5, "modify": 4}}
     ck.traces_stage("rand_toggle", "record_book", prof, files=8 if q else 64, runs=2 if q else 4, ops=300)
+    python_view(ck, q)
     return ck.finish("model_checking", LEVEL_TEXT, RULE + "generated histories ending with trading off / recorded crossed states",
                      ("gen_toggle.trading_off", "gen_toggle_off0.crossed", "rand_toggle.crossed_states"))
 
@@ -509,6 +535,7 @@ def c08(tier, seed):
     sim_traces(ck, "sim_steps", files=4 if q else 32, runs=3 if q else 6, steps=30 if q else 100)
     # hook-free: TLC infers a processing order that explains each step (batches up to 8)
     env_traces(ck, "rand_env_inferred", {"max_batch": 8, "p_step": 0.15}, files=6 if q else 48, runs=3 if q else 6, ops=160, hook=False)
+    python_view(ck, q, ("env", "numpy"))
     return ck.finish("model_checking", LEVEL_TEXT, ENV_RULE + "paths whose outcome depends on the schedule + recorded steps with batches of 4 or more",
                      ("gen_env_new_cancel.schedule_matters", "gen_env_modify.schedule_matters", "gen_menv.schedule_matters",
                       "rand_env_hook.steps_with_batch_of_4_or_more", "rand_env_inferred.steps_with_batch_of_4_or_more"))
@@ -531,6 +558,7 @@ def c10(tier, seed):
             MaxBatch=3, MaxSteps=2, MaxOrders=2, need=("submit_after_step", "has_trade"), timeout=400 if q else 1800)
     # random interleavings: many submissions between steps (every one of them must be invisible), toggles
     env_traces(ck, "rand_env_submissions", {"max_batch": 12, "p_step": 0.08, "p_toggle": 0.05, "p_market": 0.3}, files=6 if q else 48, runs=3 if q else 6, ops=200)
+    python_view(ck, q, ("env", "numpy"))
     return ck.finish("model_checking", LEVEL_TEXT, ENV_RULE + "paths ending in a submission made after at least one step",
                      ("gen_env_submit.submit_after_step", "gen_menv_submit.submit_after_step"))
 
@@ -557,6 +585,7 @@ def c11(tier, seed):
     # random runs: every level count the harness instantiates, up to 4 assets, many steps; all series compared in full at audit events
     env_traces(ck, "rand_env_records", {"max_batch": 6, "p_step": 0.3, "levels": [1, 2, 3, 4, 10], "assets": [1, 2, 3, 4], "nprices": 14}, files=6 if q else 48,
                runs=3 if q else 6, ops=200)
+    python_view(ck, q, ("env", "numpy"))
     return ck.finish("model_checking", LEVEL_TEXT, ENV_RULE + "paths with at least two steps",
                      ("gen_env_records.multi_step", "gen_menv_records.multi_step", "gen_env_records_l10.multi_step"))
 
